@@ -154,6 +154,12 @@ pub fn run(ctx: &Ctx) -> i32 {
     });
     stats.merge(s2);
     viol.extend(v2);
+    crate::fuzzrun::golden("srv_sim", &mut stats, &mut viol);
+    if ctx.tier == vcommon::ev::Tier::Thorough {
+        std::env::set_var("VERIF_SRV_LANES", "0,7");
+        let seeds: Vec<Vec<u8>> = { let mut v = Vec::new(); for l in [0u8, 7] { for i in 0..24u8 { let mut s = vec![l as u8]; s.extend((0..(16 + i as usize * 9)).map(|k| (k as u8).wrapping_mul(37).wrapping_add(i.wrapping_mul(11)))); v.push(s); } } v };
+        crate::fuzzrun::campaign(ctx, "srv_sim", crate::fuzzrun::fuzz_secs(180), &seeds, &mut stats, &mut viol);
+    }
     Report::new(RULE)
         .assume("the scripted service answers Echo with its parameters, Noop with an empty reply, Fail with an error; what the service decides is the reference, the server only has to deliver it")
         .assume("one Poll = polling Server::run() with a no-op waker until no simulated transport, listener or stream makes progress")
@@ -162,6 +168,9 @@ pub fn run(ctx: &Ctx) -> i32 {
 }
 
 pub fn replay(_lane: &str, case: serde_json::Value) -> CaseResult {
+    if _lane == "fuzz" {
+        return crate::fuzzrun::replay(&case);
+    }
     let sc: Scenario = serde_json::from_value(case).map_err(|e| Fail::new("bad-replay", e.to_string()))?;
     println!("{}", serde_json::to_string_pretty(&sample_of(&sc)).unwrap());
     let trace = run_scenario(&sc);
